@@ -13,7 +13,7 @@ func ParseExpression(name string, data *y.Yaml, level string, varGenerator *VarG
 		l, c := data.Pos()
 		return nil, errors.New(fmt.Sprintf("missing targetClass in validation definition at [%d,%d]", l, c))
 	}
-	message, err := data.Get("message").String()
+	message, err := data.Get("message").Text()
 	if err != nil {
 		message = "Validation error"
 	}
